@@ -38,6 +38,35 @@ THEOREMS = [
     'Sbepp.Properties.C06.checked_group_work_accounted',
     'Sbepp.Properties.C06.checked_work_bounded_partial',
     'Sbepp.Properties.C06.checked_work_bounded_full_false',
+    # translator tie: every member function of size_bytes_checked_visitor and size_bytes_checked as sbepp.hpp states them
+    # now (Extracted/CheckedVisitor.lean, extract/methods_checked.py) = the hand-written member function
+    'Sbepp.Checked.Tie.validateAndSubtract_tie',
+    'Sbepp.Checked.Tie.isValid_tie',
+    'Sbepp.Checked.Tie.getSize_tie',
+    'Sbepp.Checked.Tie.setGroupBlockLength_tie',
+    'Sbepp.Checked.Tie.ctor_tie',
+    'Sbepp.Checked.Tie.onField_tie',
+    'Sbepp.Checked.Tie.onData_tie',
+    'Sbepp.Checked.Tie.onEntry_tie',
+    'Sbepp.Checked.Tie.onGroup_tie',
+    'Sbepp.Checked.Tie.onMessage_tie',
+    'Sbepp.Checked.Tie.sizeBytesChecked_tie',
+    'Sbepp.Checked.Tie.ops_tie',
+    # the model of the theorems = hand model of the generated code and the cursor around those member functions
+    'Sbepp.Checked.Factor.runMsg_hand',
+    'Sbepp.Checked.Factor.runGroup_hand',
+    'Sbepp.Checked.Tie.runMsg_extracted',
+    'Sbepp.Checked.Tie.runGroup_extracted',
+    # the property theorems restated for the extracted member functions
+    'Sbepp.Properties.C06.checked_model_is_extracted',
+    'Sbepp.Properties.C06.checked_valid_iff_partial_extracted',
+    'Sbepp.Properties.C06.checked_group_valid_iff_partial_extracted',
+    'Sbepp.Properties.C06.checked_reads_below_n_partial_extracted',
+    'Sbepp.Properties.C06.checked_group_reads_below_n_partial_extracted',
+    'Sbepp.Properties.C06.checked_reads_slack_extracted',
+    'Sbepp.Properties.C06.checked_group_reads_slack_extracted',
+    'Sbepp.Properties.C06.checked_work_accounted_extracted',
+    'Sbepp.Properties.C06.checked_group_work_accounted_extracted',
 ]
 MODEL_STEP_LIMIT = 1000000
 
@@ -524,12 +553,19 @@ def run(chk):
                  'start, the end, the neighbourhood of every header value and an even stride, and a seeded sample of '
                  'the header values; distinct = distinct (schema, message, view, n, bytes)' % BUDGET[chk.tier])
     chk.cov['configurations'] = ['%s -std=%s %s' % (c, s, ' '.join(c06gen.VARIANTS[v])) for (c, s, v) in variants]
+    # a member function of the visitor the translator could not render: its tie theorem has nothing to check
+    mc_failed = ((chk.extract_report or {}).get('parts', {}).get('methods_checked') or {}).get('failed')
+    if mc_failed and not chk.violations:
+        chk.report_unproved('extraction', {'extractor': 'methods_checked', 'failed': mc_failed,
+                                           'failed_obligations': chk.failed_obligations})
     if chk.failed_obligations and not chk.violations:
         chk.report_unproved('theorem', chk.failed_obligations)
     chk.assumptions += [
-        'Rt.Checked is a hand transliteration of size_bytes_checked_visitor, the generated visit_children and the '
-        'cursor accessors; only validate_and_subtract is tied to the source by extraction (vas_eq_extracted); the rest '
-        'is tied by this differential check (result, fault and exact callback count per request)',
+        'every member function of size_bytes_checked_visitor and size_bytes_checked itself are re-translated from sbepp.hpp '
+        'on every run (extract/methods_checked.py) and proved equal to the hand-written member functions (*_tie); '
+        'validate_and_subtract additionally as a CExpr kernel with C++ integer semantics (vas_eq_extracted); the generated '
+        'visit_children, the cursor accessors and the cursor_range loop of Rt.Checked remain a hand transliteration tied by '
+        'this differential check (result, fault and exact callback count per request)',
         'the model is of builds without SBEPP_SIZE_CHECK; checked builds are observed: never FAULT, a verdict equal to the '
         'specification or ASSERT, and ASSERT (or UB/TIMEOUT) whenever the release model logs a read beyond n',
         'images above the per-image budget get a selection of truncation points and header values, not all of them',
